@@ -190,9 +190,53 @@ def targets(ctx):
             fails.append(Failure(f"raises_{g.where}", f"handwritten|raises_{g.where}_{type(g.exc).__name__}|{case['casing']}", str(g)))
         return Eval(fails, nontrivial=True, labels=["handwritten_class", f"casing:{case['casing']}"])
 
+    # ---- one sub-message OBJECT referenced from several places of an (acyclic) message
+    def alias_cases():
+        for shape in ("two_fields", "repeated_twice", "two_map_values", "two_depths", "oneof_and_field", "holder"):
+            for casing in ("camel", "snake"):
+                for path in ("dict", "to_json"):
+                    yield {"aliased": shape, "casing": casing, "path": path}
+
+    def alias_ev(case):
+        Rec, Holder, Bag, Leaf = c.bp("Rec"), c.bp("Holder"), c.bp("Bag"), c.bp("Leaf")
+        shape = case["aliased"]
+        x = Rec(i32=7, leaf=Leaf(i=1))
+        if shape == "two_fields":
+            m = Rec(rec=x, orec=x)
+        elif shape == "repeated_twice":
+            m = Rec(kids=[x, x, x])
+        elif shape == "two_map_values":
+            m = Rec(m={"a": x, "b": x})
+        elif shape == "two_depths":
+            m = Rec(rec=Rec(rec=x), kids=[x])
+        elif shape == "oneof_and_field":
+            lf = Leaf(s="shared")
+            m = Rec(leaf=lf, rec=Rec(leaf=lf), kids=[Rec(leaf=lf)])
+        else:
+            b = Bag(nums=[1, 2], label="b")
+            m = Holder(first=b, second=b, bags=[b, b])
+        fails = []
+        try:
+            b0 = guard("bytes", bytes, m)
+            if case["path"] == "to_json":
+                m2 = guard("from_json", type(m)().from_json, guard("to_json", m.to_json, casing=CAS[case["casing"]]))
+            else:
+                d = guard("to_dict", m.to_dict, CAS[case["casing"]])
+                m2 = guard("from_dict", type(m).from_dict, json.loads(json.dumps(d)))
+            if (m2 == m) is not True or guard("bytes2", bytes, m2) != b0:
+                fails.append(Failure("aliased_roundtrip", f"aliased|roundtrip|{shape}", f"case={case!r}: {m2!r:.300}"))
+            # ... a second time (nothing may be left behind by the first walk)
+            if guard("to_dict_again", m.to_dict, CAS[case["casing"]]) != guard("to_dict_third", m.to_dict, CAS[case["casing"]]):
+                fails.append(Failure("aliased_second_walk", f"aliased|second_walk|{shape}", f"case={case!r}"))
+        except Guarded as g:
+            fails.append(Failure(f"raises_{g.where}", f"aliased|raises_{g.where}_{type(g.exc).__name__}|{shape}", str(g)[:300]))
+        return Eval(fails, nontrivial=True, labels=["aliased_subobjects", f"aliased:{shape}"])
+
     from . import _seq
 
-    return [Target("handwritten_classes_odd_attribute_names", hand_ev, cases=hand_cases, exhaustive=True, shard_cases=False,
+    return [Target("one_subobject_referenced_several_times", alias_ev, cases=alias_cases, exhaustive=True, shard_cases=False,
+                   rule="the same sub-message object in two fields / several times in a repeated field / as two map values / at two depths / in a oneof and a field: JSON round trip in both casings"),
+            Target("handwritten_classes_odd_attribute_names", hand_ev, cases=hand_cases, exhaustive=True, shard_cases=False,
                    rule="a hand-written message (public field API) with attribute names userID, sessionToken, retry__count, HTTPStatus, x_y_z, address_line_1, subItem, byName, trailing_ ... : every casing x path x form"),
             Target("corpus_values_json", ev, poison=_poison_fn, strategy=strat(), quick=700, thorough=8000, time_quick=70), _seq.target("C04"),
             *__import__("vf.props._thr", fromlist=["target"]).target(ctx, ['from_dict:Leaf', 'to_dict:Leaf', 'from_dict:Names', 'to_dict:Solo'])]
